@@ -65,8 +65,8 @@ UNITS = {
                    quick=reg(FV, ['k_parse_char_int', 'k_parse_int_int', 'k_parse_int_char']), thorough=[], assumptions=[STUBS[0]], timeout=600),
     'U-substr': dict(functions='functions::strings::substring', cls='bounded (ASCII strings of 0..2 bytes quick, 3 bytes thorough; one 2-byte char + 1 ASCII; all from,to: usize)',
                      quick=reg(FS, ['k_substr_ascii_0', 'k_substr_ascii_1', 'k_substr_ascii_2', 'k_substr_utf8_nopanic', 'k_substr_skips']), thorough=reg(FS, ['k_substr_ascii_3']), assumptions=STUBS, timeout=600, mem_gb=8),
-    'U-join': dict(functions='functions::strings::join', cls='bounded (empty selection; non-string member; unresolved member) -- the concatenation harness k_join exceeds 8 GB and is not registered',
-                   quick=reg(FS, ['k_join_edge']), thorough=[], assumptions=STUBS, timeout=600),
+    'U-join': dict(functions='functions::strings::join', cls='bounded (3 elements of 0 or 1 byte in five length patterns incl. leading / middle / trailing / all empty, one-byte delimiter; empty selection; non-string member; unresolved member)',
+                   quick=reg(FS, ['k_join_edge', 'k_join_111', 'k_join_011', 'k_join_101', 'k_join_110', 'k_join_000']), thorough=[], assumptions=STUBS, timeout=600),
     'U-cnf': dict(functions='eval::eval_conjunction_clauses (real generic code, T = forced leaf)',
                   cls='bounded (all shapes of 1 line x <= 3 alternatives and 2 lines x <= 2 alternatives quick; 2 x <= 3 and 3 x <= 2 thorough; every leaf in PASS/FAIL/SKIP/Err)',
                   quick=reg(EV, ['k_cnf_0', 'k_cnf_1_1', 'k_cnf_1_2', 'k_cnf_1_3', 'k_cnf_2_1q', 'k_cnf_2_2q']),
